@@ -523,6 +523,58 @@ def untouched_tables(spec, muts):
     return out
 
 
+def cross_app_rename_probe(ctx):
+    """a model that another app refers to is renamed (the other app has a model of the new name, too), and a later
+    evolution of the other app rebuilds the referring table: the evolved schema - where the foreign key points - is
+    the schema of the final models created from scratch; the final models are written down here, not simulated"""
+    def fld(name, t, related=None, **attrs):
+        return {'name': name, 'type': t, 'attrs': attrs, 'related': related}
+
+    def mdl(app, name, fields, table=None):
+        return {'name': name, 'table': table or '%s_%s' % (app, name.lower()), 'unique_together': [],
+                'index_together': [], 'indexes': [], 'constraints': [],
+                'fields': [fld('id', 'AutoField', primary_key=True)] + fields}
+    label = [fld('label', 'CharField', max_length=10, null=True)]
+    for new_table in ('vapp_customer', 'vapp_person'):
+        for kind in ('ForeignKey', 'OneToOneField'):
+            ticket = lambda target, null: mdl('wapp', 'Ticket', [fld('note', 'CharField', max_length=10, **({'null': True} if null else {})),
+                                                               fld('owner', kind, 'vapp.%s' % target, null=True)])
+            spec0 = {'apps': [{'id': 'vapp', 'models': [mdl('vapp', 'Person', label)]},
+                              {'id': 'wapp', 'models': [mdl('wapp', 'Customer', label), ticket('Person', False)]}]}
+            spec1 = {'apps': [{'id': 'vapp', 'models': [mdl('vapp', 'Customer', label, table=new_table)]},
+                              {'id': 'wapp', 'models': [mdl('wapp', 'Customer', label), ticket('Customer', True)]}]}
+            steps = [('vapp', [{'t': 'RenameModel', 'old': 'Person', 'new': 'Customer', 'db_table': new_table}]),
+                     ('wapp', [{'t': 'ChangeField', 'model': 'Ticket', 'field': 'note', 'ftype': None, 'initial': None,
+                                'attrs': [['null', 'true']]}])]
+            rep = {'scenario': 'cross-app rename, then a rebuild of the referring table', 'spec': spec0,
+                   'steps': steps, 'final_models': spec1}
+            ctx.count('cross_app_rename_probe')
+            ctx.case({'scenario': 'cross-app rename', 'new_table': new_table, 'relation': kind}, nontrivial=True, sample_cap=2)
+            fresh_models = dbrig.build_models(spec1)
+            dbrig.reset_db('default')
+            dbrig.create_tables(fresh_models, 'default')
+            fresh = dbrig.abs_schema('default')
+            models = dbrig.build_models(spec0)
+            sig = dbrig.sig_from_models(models)
+            dbrig.reset_db('default')
+            dbrig.create_tables(models, 'default')
+            try:
+                for app, muts in steps:
+                    sig = dbrig.evolve(sig, app, [sigs.real_mutation(m) for m in muts])
+            except Exception as e:
+                ctx.fail(None, 'a valid two-app upgrade (rename in one app, change in the app that refers to it) fails: '
+                         '%s: %s' % (type(e).__name__, str(e)[:160]), rep)
+                continue
+            evolved = dbrig.abs_schema('default')
+            for t in sorted(set(fresh) | set(evolved)):
+                if json.dumps(fresh.get(t), sort_keys=True) != json.dumps(evolved.get(t), sort_keys=True):
+                    ctx.fail(None, 'after a cross-app rename and a rebuild of the referring table, table %s differs from '
+                             'the freshly created one: evolved %s, fresh %s'
+                             % (t, json.dumps(evolved.get(t), sort_keys=True)[:200], json.dumps(fresh.get(t), sort_keys=True)[:200]),
+                             rep)
+                    break
+
+
 def run(ctx):
     evorig.setup()
     quick = ctx.tier == 'quick'
@@ -531,6 +583,7 @@ def run(ctx):
                 'index_together, Meta.indexes) x simulation-valid sequences of 1-4 mutations, hand-written or hinted '
                 'from the target models, executed one at a time and batched on SQLite with the index bookkeeping '
                 'scanned from the database; non-trivial = the run executed at least one statement')
+    cross_app_rename_probe(ctx)
     n = 480 if quick else 6000
     found = {}
     schema_reqs, schema_pend = [], []
